@@ -7,7 +7,7 @@ RULE = ("MC: Builder state machine on a toy window, all histories up to 4 builds
         "in BOTH build profiles (release, release+overflow-checks): for all supported message types normal-form messages, systematically every numeric leaf at {-inf, +inf, NaN, type min, type max} / {max, min, 0, mid, 1} (all leaves of small messages, an evenly spread rotating subset of large ones), single-leaf "
         "extremes (None/Some), random value-tree mutants (ints, floats, options, list length/order/duplicates, "
         "text), MSM edge inputs (satellite 0/65/255, unrecognised signal, duplicates, mismatch, |S|x|G| around 64), SSR/1230 bias lists, "
-        "GLONASS channel numbers at the i8 edge, the three wire-less variants; every Put must be a Builder step at the spec cursor and "
+        "GLONASS channel numbers at the i8 edge, messages obtained by decoding hostile CRC-valid frames, the three wire-less variants; every Put must be a Builder step at the spec cursor and "
         "every returned frame must equal the spec's Finish frame and be well formed with the variant's number; a panic is rejected; "
         "non-trivial = session with at least one put; distinct = distinct (variant, put sequence) sessions")
 
